@@ -554,7 +554,7 @@ add("ApplicationTools.range-vector-readers", {"1", "9", ",", "1:3", "9:1", "(", 
     S(c, "IntervalConstraint::getDescription"); use(ic.getDescription());
     S(c, "IntervalConstraint::isCorrect"); use(ic.isCorrect(1.)); use(ic.getLimit(1.)); use(ic.getAcceptedLimit(1.));
   }, true);
-  add("IntervalConstraint(desc).words", {"[", "]", ";", "-inf", "inf", "+inf", "1", "-1", "1e400", ".", " "}, {"-"}, [](const string& s, int, vf::Case& c) {
+  add("IntervalConstraint(desc).words", {"[", "]", ";", "-inf", "inf", "+inf", "1", "-1", "1e400"}, {"-"}, [](const string& s, int, vf::Case& c) {
     string d = s;
     S(c, "IntervalConstraint::IntervalConstraint(desc)");
     IntervalConstraint ic(d);
@@ -612,6 +612,7 @@ int main(int argc, char** argv) {
     {"DataTable.edits", {4, 5}},
     {"NumCalcApplicationTools.getVector.words", {4, 5}},
     {"readDiscreteDistribution.Simple", {2, 3}},
+    {"readDiscreteDistribution.Uniform", {3, 4}},          // a well-formed Uniform needs three arguments
     {"readDiscreteDistribution.compound", {4, 5}},
   };
   const uint64_t cap = th ? 2500000ULL : 100000ULL;
@@ -655,7 +656,7 @@ int main(int argc, char** argv) {
       if (idx % 1009 == 5) c.sample(ep.name + " [" + ep.opts[(size_t)opt] + "] (" + show(w) + ")^k, " + vf::str(in.size()) + " bytes" + (c.failed ? " -> violation" : " -> ok"));
     }, 60.0, 16);
     if (!R.replay && R.timeLeft()) {   // (after the global deadline the spaces are reported as incomplete instead)
-      R.expectSeen(ep.name + " returned");
+      if (!classCount) R.expectSeen(ep.name + " returned");   // (degenerate class counts: raising on every input is the right answer)
       if (ep.canRaise) R.expectSeen(ep.name + " raised-bpp::Exception");
     }
   }
